@@ -128,7 +128,7 @@ def _negated_reads(expr, var, attr):
     "R16.2",
     "cross-over for negative aliases: the statement(s) updating the min accumulator read the alias's min un-negated and its "
     "max negated; those updating the max accumulator read its max un-negated and its min negated; an alias's start enters the "
-    "start accumulator multiplied by the sign",
+    "start accumulator multiplied by the sign; nominal and fixed enter un-signed",
 )
 def r16_2(ctx, rep):
     R = "R16.2"
@@ -148,6 +148,18 @@ def r16_2(ctx, rep):
                own_plain >= 1 and own_neg == 0 and oth_neg >= 1 and oth_plain == 0,
                "for x = -y the %s of x is -(%s of y): the update of `%s` must read %s.%s as it is and %s.%s negated "
                "(found %s plain %d / negated %d, %s plain %d / negated %d)" % (a, other, v, ast_, a, ast_, other, a, own_plain, own_neg, other, oth_plain, oth_neg))
+    # magnitudes and flags carry no sign: a nominal is a scale (largest wins), fixed is a flag
+    for a in ("nominal", "fixed"):
+        v = acc.get(a)
+        if v is None:
+            continue
+        ups = [st.value for st in ast.walk(inner) if isinstance(st, (ast.Assign, ast.AugAssign))
+               and any(is_name(t, v) for t in (st.targets if isinstance(st, ast.Assign) else [st.target]))]
+        plain = sum(_negated_reads(u, ast_, a)[0] for u in ups)
+        neg = sum(_negated_reads(u, ast_, a)[1] for u in ups)
+        rep.ob(R, SITE, "%s of an alias enters unsigned" % a, plain >= 1 and neg == 0,
+               "the %s of a negative alias must be used as it is (it is a %s, not a signed quantity): multiplied by the sign it can never win "
+               "the merge (found %d plain / %d sign-adjusted reads)" % (a, "scale" if a == "nominal" else "flag", plain, neg))
     v = acc.get("start")
     if v is not None:
         ups = [st.value for st in ast.walk(inner) if isinstance(st, ast.Assign) and any(is_name(t, v) for t in st.targets)]
@@ -231,6 +243,18 @@ def _m4(mod):
         for n in ast.walk(fn):
             if isinstance(n, ast.Assign) and norm(n) == "start = sign * alias_state.start":
                 n.value = ast.parse("alias_state.start", mode="eval").body
+                return True
+        return False
+
+    return mod if replace_in_func(mod, "Model._simplify_once", edit) else None
+
+
+@SPEC.mutant("nominal of a negative alias sign-adjusted", MODEL, "R16.2", "nominal of an alias")
+def _m5(mod):
+    def edit(fn):
+        for n in ast.walk(fn):
+            if isinstance(n, ast.Assign) and norm(n).startswith("nominal = ca.fmax(nominal, alias_state.nominal"):
+                n.value = ast.parse("ca.fmax(nominal, sign * alias_state.nominal)", mode="eval").body
                 return True
         return False
 
